@@ -175,6 +175,7 @@ struct Sim {
       case OP_TM_ASSIGN: case OP_TM_ASSIGN_EIGEN: case OP_TM_COEFFWRITE: case OP_TM_SETZERO: case OP_TM_STREAM:
       case OP_T_NEG: case OP_DATAPTR: case OP_HAT: case OP_ZERO: case OP_GENERATOR: case OP_T_GENERATOR_M:
       case OP_M_SETTERS: case OP_TM_BLOCKSET: case OP_T_ACCESSORS: case OP_CONSTRUCT: case OP_STREAM: case OP_T_STREAM:
+      case OP_TM_MOVE_ASSIGN:
         return T_EXACT;
       case OP_INTERP_SLERP: case OP_INTERP_CUBIC: case OP_INTERP_SMOOTH: case OP_AVG_BIINV: case OP_AVG: case OP_AVG_FL:
       case OP_AVG_FR: case OP_DECASTELJAU:
@@ -261,6 +262,17 @@ struct Sim {
       }
     }
     if (v.flags & 1) { res.fail("output_block", cls("output_block", op.op), "write outside a bound output block", idx); return false; }
+    if ((v.flags | m.flags) & 4) {
+      res.fail("assignment_postcondition", cls("assignment_postcondition", op.op), std::string(inf.name) + " in " + vt->name + " through operand kinds (" +
+               std::to_string((int)op.ka) + "," + std::to_string((int)op.kb) + ") did not leave the source's coefficients in the destination's own storage" +
+               ((m.flags & 4) ? " (owning objects as well)" : ""), idx);
+      return false;
+    }
+    if ((v.flags | m.flags) & 8) {
+      res.fail("held_result_changed", cls("held_result_changed", op.op), std::string(inf.name) + " in " + vt->name + " through operand kinds (" +
+               std::to_string((int)op.ka) + "," + std::to_string((int)op.kb) + "): a result bound to a const reference changed while other objects were used", idx);
+      return false;
+    }
     if (op.op == OP_DATAPTR && v.status == 0 && (v.v[0] != 1.0 || v.v[1] != 1.0 || v.v[2] != 1.0)) {
       res.fail("data_pointer", cls("data_pointer", op.op), std::string("view does not alias the user buffer in place (data()==buffer: ") + (v.v[0] == 1.0 ? "yes" : "NO") +
                ", sub-view offsets: " + (v.v[1] == 1.0 ? "ok" : "WRONG") + ", copy of the view views the same buffer: " + (v.v[2] == 1.0 ? "yes" : "NO") + ")", idx);
@@ -399,6 +411,7 @@ struct Sim {
         if (inf.nout) s.op.mask = (uint8_t)rng.below(1u << inf.nout);
         if (rng.chance(0.15) && (op == OP_INTERP_SLERP || op == OP_TM_PLUSEQ || op == OP_TM_MINUSEQ)) s.op.variant |= V_ALT;
         if (op == OP_M_MOVE_ASSIGN && rng.chance(0.6)) { s.op.variant |= V_ALT; s.op.kb = K_MAP; }
+        if (op == OP_M_MOVE_ASSIGN || op == OP_TM_MOVE_ASSIGN) s.op.c = (uint8_t)rng.below(12);
         if (rng.chance(0.3)) s.op.variant |= V_FRESH;
         if (op == OP_COEFFS && rng.chance(0.5)) s.op.variant |= V_ALT;
         if (rng.chance(0.3) && op == OP_LOG && (vt->caps & (CAP_ASSO3 | CAP_BUNDLE))) s.op.variant |= V_SUB;
